@@ -48,7 +48,7 @@ KF1Trigger(b) == b.raw # {} /\ ~(b.ltab \subseteq Reach(b))
 ViewKF1(v, b) ==
   /\ ViewBase(v, b)
   /\ ToSet(v.present) = Reach(b) \cup b.ltab
-  /\ ToSet(v.sst) = Reach(b) \cup b.ltab
+  /\ ToSet(v.sst) \subseteq Reach(b) \cup b.ltab      \* (which strings go through the table is the writer's business)
 
 Expected(e) ==
   CASE e.a = "SetText"     -> [books EXCEPT ![e.w] = SetTextB(@, <<e.sh, e.r>>, e.s)]
